@@ -265,11 +265,11 @@ func genEnum(w *lib.Writer, env *envT, r *lib.Rand, tier string) {
 			one(si, 1, 0, hc)
 		}
 	}
-	// every script x pair x kind with 6 sampled histories
+	// every script x pair x kind with 4 sampled histories
 	for si := range scripts {
 		for pi := range pairs {
 			for kind := 0; kind < 4; kind++ {
-				for q := 0; q < 6; q++ {
+				for q := 0; q < 4; q++ {
 					one(si, pi, kind, r.Intn(81))
 				}
 			}
